@@ -115,7 +115,8 @@ def pipeline_presence(cx, iid):
                         if any(re.fullmatch(r"is\([\w:.@\[\](),]*state,Active\)", x) for x in lits):
                             if b.reach_exit_avoiding(Loc(y, -1), recvs, _loop_exits(b, y)) is not None:
                                 inst.violation(b.path, "receive skipped", "an active connection can be stepped without delivering received packets")
-                        if any(re.fullmatch(r"!var\d+", x) for x in lits) and steps:
+                        # the normal branch is the one on which the disconnect decision is negative (either polarity of the flag)
+                        if any(re.fullmatch(r"!?var\d+", x) for x in lits) and steps and not _reaches_block(b, y, _closing_blocks(b), stop={l.bb for l in (_loop_exits(b, y) or [])}):
                             if _reaches_block(b, y, {s.bb for s in recvs}) and b.reach_exit_avoiding(Loc(y, -1), steps, _loop_exits(b, y)) is not None:
                                 inst.violation(b.path, "step skipped", "the normal branch of %s does not step the half connection" % fn.split("::")[-1])
             arm_call(flushfn, "HalfConnection::flush", r"HalfConnection::flush\(")
@@ -147,6 +148,15 @@ def pipeline_presence(cx, iid):
                 inst.violation(st.path, callee, "HalfConnection::step can return without calling %s" % callee)
 
 
+def _closing_blocks(b):
+    """blocks that move the connection to Closing (the disconnect branch of step_if_active / step_active_clients)"""
+    out = set()
+    for l, st in b.assigns():
+        if st["pl"]["p"] and show(b.place_expr(st["pl"])).endswith("state") and show(b.rvalue_expr(st["rv"])).startswith("State::Closing"):
+            out.add(l.bb)
+    return out
+
+
 def _loop_exits(b, bb):
     Ls = [L for L in b.loops() if bb in L["body"]]
     if not Ls:
@@ -155,8 +165,8 @@ def _loop_exits(b, bb):
     return [Loc(L["header"], 0)]
 
 
-def _reaches_block(b, start, targets):
-    seen = set()
+def _reaches_block(b, start, targets, stop=()):
+    seen = set(stop)
     st = [start]
     while st:
         x = st.pop()
@@ -215,9 +225,9 @@ def ack_processing_presence(cx, iid):
                 if t["k"] == "switch":
                     for y, lb in st.succ[bb]:
                         lits = fa.edge_lits.get((bb, y, lb[1]), [])
-                        if "is(arg3,Some)" in lits and st.reach_exit_avoiding(Loc(y, -1), [l for l, _ in hf]) is not None:
+                        if "is(arg3,Some)" in lits and st.reach_exit_avoiding_flags(y, [l for l, _ in hf], fa) is not None:
                             inst.violation(st.path, "feedback dropped", "a feedback report can be dropped without being handled")
-                        if any(re.fullmatch(r"le\(arg1\.nofeedback_exp_ms@Some\.0,arg2\)", x) for x in lits) and st.reach_exit_avoiding(Loc(y, -1), [l for l, _ in ne]) is not None:
+                        if any(re.fullmatch(r"le\(arg1\.nofeedback_exp_ms@Some\.0,arg2\)", x) for x in lits) and st.reach_exit_avoiding_flags(y, [l for l, _ in ne], fa) is not None:
                             inst.violation(st.path, "expiry dropped", "an expired no-feedback timer can be ignored")
 
 
@@ -457,6 +467,24 @@ def saturated_u32_of(v):
     return None
 
 
+def inline_local_closure_call(R, v):
+    """`f(x)` for a capture-free local closure `let f = |a| EXPR;` printed as `…::{closure#k}(closure:PATH{},tuple{X})`:
+    the closure's returned expression with its parameter replaced by X (printed form); v itself otherwise"""
+    m = re.fullmatch(r"[\w:<>]*\{closure#\d+\}\(closure:([^{}]*\{closure#\d+\})\{\},tuple\{(.*)\}\)", v)
+    if not m:
+        return v
+    try:
+        cb = R.body(m.group(1))
+        if cb.argc != 2:
+            return v
+        e = show(cb.local_expr(0))
+    except Exception:
+        return v
+    if re.search(r"\barg1\b|\bvar\d+\b", e):
+        return v
+    return re.sub(r"\barg2\b", lambda _m: m.group(2), e)
+
+
 def advertised_limits(cx, inst, fields):
     """T7: what an endpoint advertises in its SYN / SYN-ACK is its configured limit (saturated to u32):
     the peer clamps its rate / packet sizes / outstanding bytes to the advertised numbers, so an
@@ -472,6 +500,7 @@ def advertised_limits(cx, inst, fields):
                 for f in fields:
                     v = show(bb.operand_expr(rv["ops"][rv["fields"].index(f)]))
                     inst.site(bb, loc, "%s.%s = %s" % (adt, f, v[:90]))
+                    v = inline_local_closure_call(R, v)
                     src = saturated_u32_of(v)
                     if src is None or not re.fullmatch(r".*\.endpoint_config\.%s" % f, src):
                         inst.violation(bb.path, "advertised " + f, "the advertised %s is `%s`, not the configured one" % (f, v[:120]), at=bb.span_at(loc))
@@ -644,7 +673,23 @@ def heap_order(cx, iid, which):
             ce, pe = show(c.local_expr(0)), show(pc.local_expr(0))
             inst.site(c, None, "%s::cmp = %s" % (ty.split("::")[-1], ce))
             inst.site(pc, None, "%s::partial_cmp = %s" % (ty.split("::")[-1], pe))
-            if not any(re.fullmatch(x, ce) for x in rev):
+            spelled_out = False
+            if ce == "var0":
+                # match a.t.cmp(&b.t) { Less => Greater, Equal => Equal, Greater => Less }: the reversal written out
+                fa = cx.fa(c)
+                table = {}
+                for dloc, kind, node in c.defs.get(0, []):
+                    if kind != "assign":
+                        continue
+                    val = show(c.rvalue_expr(node["rv"]))
+                    for alt in fa.at(dloc) or []:
+                        for lit in alt:
+                            mm = re.fullmatch(r"is\(u64::cmp\(arg1\.%s,arg2\.%s\),(Less|Equal|Greater)\)" % (fld, fld), lit)
+                            if mm:
+                                table.setdefault(mm.group(1), set()).add(val)
+                spelled_out = table == {"Less": {"Ordering::Greater{}"}, "Equal": {"Ordering::Equal{}"}, "Greater": {"Ordering::Less{}"}}
+                inst.site(c, None, "cmp table: %s" % {k: sorted(v) for k, v in sorted(table.items())})
+            if not spelled_out and not any(re.fullmatch(x, ce) for x in rev):
                 inst.violation(c.path, "cmp", "%s::cmp is `%s`, expected the reversed order of %s (earliest first in a max-heap)" % (ty, ce, fld))
             okp = any(re.fullmatch(r"Some\{%s\}" % x, pe) for x in rev) or re.fullmatch(r"Some\{<%s as std::cmp::Ord>::cmp\(arg1,arg2\)\}|Some\{%s::cmp\(arg1,arg2\)\}|Some\{Ord::cmp\(arg1,arg2\)\}" % (re.escape(ty), re.escape(ty.split("::")[-1])), pe)
             if not okp:
